@@ -402,6 +402,28 @@ func instantFlow(c *Ctx, p *Prog, m *Model) {
 		}
 		r.Check(len(probs) == 0, "R16.5", "instant:"+spec, p.FuncPos(fn), "the instant is passed on / stored unchanged", strings.Join(dedupStr(probs), "; ")+": the printed time is not the record's own instant to the layout's precision")
 	}
+	// the log/slog adapter hands on the record's own time, whatever it is
+	if hd := p.Method(p.Slog, "handler4LogSlog", "Handle"); hd != nil && len(hd.Params) == 3 {
+		rec := hd.Params[2]
+		n, bad := 0, ""
+		for _, cs := range callsIn(hd) {
+			if invokeName(cs) != "WriteThru" {
+				continue
+			}
+			for _, a := range cs.Common().Args {
+				if !isTime(a.Type()) {
+					continue
+				}
+				n++
+				for _, alt := range te.eval(a, nil).alts() {
+					if !(alt.Op == "field" && alt.Name == "Time" && len(alt.Args) == 1 && (alt.Args[0].isParam(rec) || alt.Args[0].contains(func(t *Term) bool { return t.isParam(rec) }))) {
+						bad = "the time handed to the logger can be " + alt.String() + " instead of the record's own Time"
+					}
+				}
+			}
+		}
+		r.Check(n > 0 && bad == "", "R16.5", "instant:handler4LogSlog.Handle", p.FuncPos(hd), "hands on the record's own Time", "Handle: "+bad+" (a record is re-stamped: its printed time is not its instant)")
+	}
 	// the timestamp printer formats the stored instant
 	if pt := p.Method(p.Slog, "Entry", "printTimestamp"); pt != nil {
 		ok := false
@@ -791,5 +813,210 @@ func pooledObjectsFresh(c *Ctx, p *Prog, rule string) {
 	}
 	if n == 0 {
 		r.OkTrivial(rule, "fresh-buffer:none", "-", "no slice field is initialised when a formatting context is created (zero value)")
+	}
+}
+
+// ---- every context key given is registered (C07 R07.5) -----------------------------------------------------------------------
+
+func contextKeysRegistered(c *Ctx, p *Prog) {
+	r := c.R
+	fn := p.Method(p.Slog, "Entry", "SetContextKeys")
+	if fn == nil || len(fn.Params) != 2 {
+		r.Unk("R07.5", "SetContextKeys", "-", "not found")
+		return
+	}
+	recv, keys := fn.Params[0], fn.Params[1]
+	te := newTermEval(p)
+	var probs []string
+	n := 0
+	for _, ef := range te.effectsOf(fn, privateHelper(p)) {
+		if ef.Struct != "Entry" || ef.Field != "contextKeys" || ef.Kind != "store" {
+			continue
+		}
+		n++
+		for _, alt := range ef.Val.alts() {
+			if !(alt.Op == "append" && len(alt.Args) == 2 && alt.Args[0].isFieldOf(recv, "contextKeys") && alt.Args[1].isParam(keys)) {
+				probs = append(probs, "the key list stored is "+alt.String()+", not the old list with ALL the keys given appended: a key can be left out (its value is then missing from every record) or the list reordered")
+			}
+		}
+		if gs := ef.guardsWithChain(); len(gs) > 0 {
+			probs = append(probs, "the registration is conditional ("+m0guard(gs[0])+")")
+		}
+	}
+	if n != 1 {
+		probs = append(probs, fmt.Sprintf("%d stores to the key list", n))
+	}
+	r.Check(len(probs) == 0, "R07.5", "SetContextKeys", p.FuncPos(fn), "appends every key given to the logger's own key list, unconditionally", strings.Join(dedupStr(probs), "; "))
+}
+
+func m0guard(g guard) string {
+	c, _ := normCond(g.If.Cond)
+	return c.String()
+}
+
+// ---- no mutex is held across the sink's own diagnostic (C13 R13.2) ------------------------------------------------------------
+
+func noLockAcrossDiagnostic(c *Ctx, p *Prog, m *Model) {
+	r := c.R
+	isLock := func(cal *ssa.Function) bool {
+		switch cal.String() {
+		case "(*sync.Mutex).Lock", "(*sync.RWMutex).Lock", "(*sync.RWMutex).RLock":
+			return true
+		}
+		return false
+	}
+	isUnlock := func(cal *ssa.Function) bool {
+		switch cal.String() {
+		case "(*sync.Mutex).Unlock", "(*sync.RWMutex).Unlock", "(*sync.RWMutex).RUnlock":
+			return true
+		}
+		return false
+	}
+	// lock/unlock reached through private helpers count (lockWriters() returning the unlock func, ...)
+	var locksIn func(fn *ssa.Function, depth int) bool
+	locksIn = func(fn *ssa.Function, depth int) bool {
+		for _, cs := range callsIn(fn) {
+			cal := calleeOf(cs)
+			if cal == nil {
+				continue
+			}
+			if isLock(cal) {
+				return true
+			}
+			if depth < 2 && cal.Pkg == p.Slog && cal.Object() != nil && !cal.Object().Exported() && !m.SinkFns[cal] && locksIn(cal, depth+1) {
+				return true
+			}
+		}
+		return false
+	}
+	for sink := range m.SinkFns {
+		// re-entry sites: calls from the sink back into the logging API (spine sites of the sink)
+		var reentries []ssa.CallInstruction
+		for _, cs := range m.Sites[sink] {
+			reentries = append(reentries, cs)
+		}
+		key := "lock-held:" + shortName(sink)
+		if len(reentries) == 0 {
+			r.OkTrivial("R13.2", key, p.FuncPos(sink), "the sink does not re-enter logging")
+			continue
+		}
+		bad := ""
+		for _, re := range reentries {
+			for _, cs := range callsIn(sink) {
+				cal := calleeOf(cs)
+				if cal == nil {
+					continue
+				}
+				locks := isLock(cal) || (cal.Pkg == p.Slog && cal.Object() != nil && !cal.Object().Exported() && locksIn(cal, 0))
+				if !locks {
+					continue
+				}
+				if _, isDefer := cs.(*ssa.Defer); isDefer {
+					continue
+				}
+				if !(cs.Block().Dominates(re.Block()) && after(cs, re)) {
+					continue
+				}
+				// released before the re-entry on every path? (a plain Unlock call between them that dominates the re-entry)
+				released := false
+				for _, u := range callsIn(sink) {
+					if ucal := calleeOf(u); ucal != nil && isUnlock(ucal) {
+						if _, isDefer := u.(*ssa.Defer); !isDefer && after(cs, u) && u.Block().Dominates(re.Block()) && after(u, re) {
+							released = true
+						}
+					}
+				}
+				if !released {
+					bad = fmt.Sprintf("the lock taken at %s is still held when the diagnostic is issued at %s: the nested record takes the same path and locks again (self-deadlock, or a deadlock with a waiting writer for a read lock)", p.Pos(instrPos(cs)), p.Pos(instrPos(re)))
+				}
+			}
+		}
+		r.Check(bad == "", "R13.2", key, p.FuncPos(sink), "no mutex is held while the sink issues its diagnostic record", bad)
+	}
+}
+
+// ---- a position found by a search is not stepped back past the start (C02 R02.5) -----------------------------------------------
+
+// str[ix-1], str[:ix-1] with ix the result of strings.Index*/bytes.Index* need ix >= 1 (not just "found", ix >= 0):
+// a match at position 0 otherwise indexes -1 and the logging call panics.
+func searchIndexStepBack(c *Ctx, p *Prog, m *Model) {
+	r := c.R
+	tree := printTree(p, m)
+	isSearch := func(v ssa.Value) bool {
+		call, ok := v.(*ssa.Call)
+		if !ok {
+			return false
+		}
+		cal := calleeOf(call)
+		if cal == nil || cal.Pkg == nil {
+			return false
+		}
+		pp := cal.Pkg.Pkg.Path()
+		return (pp == "strings" || pp == "bytes") && (strings.HasPrefix(cal.Name(), "Index") || strings.HasPrefix(cal.Name(), "LastIndex"))
+	}
+	atLeast := func(v ssa.Value, need int64, b *ssa.BasicBlock) bool {
+		for _, g := range guardsOf(b) {
+			cond, neg := normCond(g.If.Cond)
+			bo, ok := cond.(*ssa.BinOp)
+			if !ok || bo.X != v {
+				continue
+			}
+			k, isC := constInt(bo.Y)
+			if !isC {
+				continue
+			}
+			holds := (g.Succ == 0) != neg
+			switch {
+			case holds && bo.Op == token.GTR && k+1 >= need,
+				holds && bo.Op == token.GEQ && k >= need,
+				!holds && bo.Op == token.LSS && k >= need,
+				!holds && bo.Op == token.LEQ && k+1 >= need:
+				return true
+			}
+		}
+		return false
+	}
+	n := 0
+	var fns []*ssa.Function
+	for fn := range tree {
+		fns = append(fns, fn)
+	}
+	sort.Slice(fns, func(i, j int) bool { return shortName(fns[i]) < shortName(fns[j]) })
+	for _, fn := range fns {
+		for _, b := range fn.Blocks {
+			for _, in := range b.Instrs {
+				var idxs []ssa.Value
+				switch x := in.(type) {
+				case *ssa.Index:
+					idxs = append(idxs, x.Index)
+				case *ssa.IndexAddr:
+					idxs = append(idxs, x.Index)
+				case *ssa.Slice:
+					if x.Low != nil {
+						idxs = append(idxs, x.Low)
+					}
+					if x.High != nil {
+						idxs = append(idxs, x.High)
+					}
+				}
+				for _, ix := range idxs {
+					l, ok := linOf(ix)
+					if !ok || l.c >= 0 || len(l.atoms) != 1 {
+						continue
+					}
+					for at, k := range l.atoms {
+						if k != 1 || !isSearch(at) {
+							continue
+						}
+						n++
+						key := fmt.Sprintf("stepback:%s:%d", shortName(fn), n)
+						r.Check(atLeast(at, -l.c, b), "R02.5", key, p.Pos(instrPos(in)), "the position found is known to be far enough from the start", fmt.Sprintf("a position found by %s is stepped back by %d without a test that it is at least %d: a match at the very start indexes before the string and the logging call panics", callName(at.(*ssa.Call)), -l.c, -l.c))
+					}
+				}
+			}
+		}
+	}
+	if n == 0 {
+		r.OkTrivial("R02.5", "stepback:none", "-", "no search result is stepped back on the print path")
 	}
 }
